@@ -121,4 +121,20 @@ CHECKS = {
              "'+' or containing a tab are probed separately and are recorded known findings. Getter/setter bodies of "
              "member variables (forced by Shroud) and ambiguous block names are excluded.",
     ),
+    "C08": dict(
+        level="exploration",
+        technique="property-based testing with an independent reference model of callable signatures and documented "
+                  "name stems (Hypothesis descriptions; exhaustive single-group enumeration in thorough)",
+        design_ref="DESIGN.md section 4, C08",
+        text="Descriptions combining overload sets, trailing defaults, function templates, fortran_generic lists, "
+             "namespaces/classes and explicit or defaulted suffixes are generated; names are read from the generated "
+             "headers, Fortran modules and PyMethodDef/luaL_Reg tables. For every C++ name the number of C entry points "
+             "and Fortran specifics with the documented stem and an admissible suffix chain equals the number of callable "
+             "signatures, all external C symbols / module entities / table keys are pairwise distinct, supplied suffixes "
+             "are used, every C entry point is explained, and each generic (interface or type-bound) lists exactly the "
+             "specifics of its name.",
+        note="The pairing signature<->name is established by counting within a prefix-free name pool, not by "
+             "re-implementing the suffix counter. Template+default argument and same-named Lua functions in two "
+             "namespaces are recorded known findings (probed, excluded from the main search).",
+    ),
 }
